@@ -35,6 +35,14 @@ def _specs(seed, n):
         world["results"] = results
         specs.append({"name": "st", "world": world, "argv": argv, "hashseed": p["hashseed"] % 4, "sched": p["sched"],
                       "enum_seed": p["enum_seed"], "heap_shift": p["heap_shift"]})
+    # canary: a world whose outcome depended on memory addresses before the find_assignments fix; kept because it
+    # detects any heap-state leak between executions (id()-dependent set order) - every copy must agree
+    canary_src = ("\nfrom flask import Flask\napp = Flask(__name__)\napp2 = Flask(__name__)\n\n" * 2
+                  + "\nfrom flask import Flask\napp = Flask(__name__); app2 = Flask(__name__)\n")
+    for h in (0, 1, 100):
+        specs.append({"name": "canary", "world": {"files": {"h.py": {"t": canary_src}}},
+                      "argv": ["<T>", "--output", "<O>/report.codetf", "--codemod-include", "pixee:python/flask-enable-csrf-protection"],
+                      "hashseed": 0, "sched": {"seed": 1, "policy": "fifo", "line_p": 0.0}, "enum_seed": None, "heap_shift": h})
     return specs
 
 
